@@ -31,7 +31,9 @@ Record inspec := mkIn {
 Record bind := mkB { b_outer : nat; b_node : nat; b_slot : nat }.
 
 Record ncfg := mkCfg {
-  c_kind : Z;               (* 0 plain, 1 nested, 2 try_except, 3 plain with captures_errors *)
+  c_kind : Z;               (* 0 plain, 1 nested, 2 try_except, 3 plain with captures_errors,
+                               4 nested whose owner re-enters a paused child cycle until it completes (what mesh_ does),
+                               5 plain node whose evaluate may return false (pause the cycle; what mesh_subscribe does) *)
   c_sched : bool;
   c_sos : bool;
   c_out : bool;
@@ -39,16 +41,17 @@ Record ncfg := mkCfg {
   c_ins : list inspec;
   c_child : nat;            (* kinds 1,2: the child graph *)
   c_outn : Z;               (* kinds 1,2: child terminal node (or -1) *)
-  c_binds : list bind }.
+  c_binds : list bind;
+  c_pause : Z -> Z }.       (* kind 5: run index -> how many times evaluate returns false before that run completes *)
 
 Record gcfg := mkGC { gc_parent : option (nat * nat); gc_nodes : list ncfg }.
 Definition tcfg := list gcfg.
 
-Definition dflt_cfg : ncfg := mkCfg 0 false false false 0 [] 0 (-1) [].
+Definition dflt_cfg : ncfg := mkCfg 0 false false false 0 [] 0 (-1) [] (fun _ => 0).
 Definition dflt_gc : gcfg := mkGC None [].
 Definition gcfg_at (T : tcfg) (g : nat) : gcfg := nth g T dflt_gc.
 Definition ncfg_at (T : tcfg) (g i : nat) : ncfg := nth i (gc_nodes (gcfg_at T g)) dflt_cfg.
-Definition is_nested (c : ncfg) : bool := (c_kind c =? 1) || (c_kind c =? 2).
+Definition is_nested (c : ncfg) : bool := (c_kind c =? 1) || (c_kind c =? 2) || (c_kind c =? 4).
 
 (* ---- operations user code may perform ---- *)
 Inductive op :=
@@ -68,12 +71,18 @@ Record inview := mkIv { v_valid : bool; v_mod : bool; v_val : Z; v_lmt : Z }.
 (* user code: graph, node, run index (-1 = the start hook), time, inputs, scheduler state -> ops *)
 Definition behaviour := nat -> nat -> Z -> Z -> list inview -> sched -> list op.
 
+(* the code an unfinished (paused) evaluation leaves in [w_err]: it propagates upward like an exception -
+   every enclosing evaluate returns false - but is not one: evaluation_failed stays clear, try_except does
+   not catch it, and a re-entering owner (kind 4) resumes the cycle *)
+Definition PAUSED : Z := 7.
+
 (* ---- dynamic state ---- *)
 Record nst := mkN { n_started : bool; n_sch : sched; n_runs : Z;
                      n_val : option Z; n_lmt : Z;          (* port 0 *)
                      n_err : option Z; n_elmt : Z;          (* port 1: error output / exception field *)
                      n_link : Z;                            (* forwarding link: time its target was last re-pointed *)
-                     n_rebound : bool }.                    (* forwarding link already points at the final output *)
+                     n_rebound : bool;                      (* forwarding link already points at the final output *)
+                     n_paused : Z }.                        (* kind 5: pauses requested so far in the current run *)
 
 Record gst := mkG {
   g_now : Z;                 (* evaluation_time *)
@@ -87,7 +96,7 @@ Record gst := mkG {
 
 Record world := mkW { w_gs : list gst; w_log : list line; w_err : Z }.
 
-Definition init_n : nst := mkN false empty_sched 0 None MIN_DT None MIN_DT MIN_DT false.
+Definition init_n : nst := mkN false empty_sched 0 None MIN_DT None MIN_DT MIN_DT false 0.
 Definition dflt_g : gst := mkG MIN_DT [] MAX_DT [] false false (-1) false.
 Definition init_g (n : nat) : gst := mkG MIN_DT (repeat MIN_DT n) MAX_DT (repeat init_n n) false false (-1) false.
 
@@ -215,12 +224,13 @@ Definition snapshot (g i : nat) (now k : Z) (s : sched) (extra : Z) : line :=
   [13; Z.of_nat g; Z.of_nat i; now; k; next_scheduled_time s; b2z (is_scheduled s); b2z (is_scheduled_now now s)]
     ++ tagq now 1 s ++ tagq now 2 s ++ tagq now 3 s ++ [extra].
 
-Definition set_sch (s : sched) (n : nst) : nst := mkN (n_started n) s (n_runs n) (n_val n) (n_lmt n) (n_err n) (n_elmt n) (n_link n) (n_rebound n).
-Definition set_out (v now : Z) (n : nst) : nst := mkN (n_started n) (n_sch n) (n_runs n) (Some v) now (n_err n) (n_elmt n) (n_link n) (n_rebound n).
-Definition set_errv (v now : Z) (n : nst) : nst := mkN (n_started n) (n_sch n) (n_runs n) (n_val n) (n_lmt n) (Some v) now (n_link n) (n_rebound n).
-Definition set_started (n : nst) : nst := mkN true (n_sch n) (n_runs n) (n_val n) (n_lmt n) (n_err n) (n_elmt n) (n_link n) (n_rebound n).
-Definition inc_runs (n : nst) : nst := mkN (n_started n) (n_sch n) (n_runs n + 1) (n_val n) (n_lmt n) (n_err n) (n_elmt n) (n_link n) (n_rebound n).
-Definition set_link (t : Z) (n : nst) : nst := mkN (n_started n) (n_sch n) (n_runs n) (n_val n) (n_lmt n) (n_err n) (n_elmt n) t true.
+Definition set_sch (s : sched) (n : nst) : nst := mkN (n_started n) s (n_runs n) (n_val n) (n_lmt n) (n_err n) (n_elmt n) (n_link n) (n_rebound n) (n_paused n).
+Definition set_out (v now : Z) (n : nst) : nst := mkN (n_started n) (n_sch n) (n_runs n) (Some v) now (n_err n) (n_elmt n) (n_link n) (n_rebound n) (n_paused n).
+Definition set_errv (v now : Z) (n : nst) : nst := mkN (n_started n) (n_sch n) (n_runs n) (n_val n) (n_lmt n) (Some v) now (n_link n) (n_rebound n) (n_paused n).
+Definition set_started (n : nst) : nst := mkN true (n_sch n) (n_runs n) (n_val n) (n_lmt n) (n_err n) (n_elmt n) (n_link n) (n_rebound n) (n_paused n).
+Definition inc_runs (n : nst) : nst := mkN (n_started n) (n_sch n) (n_runs n + 1) (n_val n) (n_lmt n) (n_err n) (n_elmt n) (n_link n) (n_rebound n) (n_paused n).
+Definition set_link (t : Z) (n : nst) : nst := mkN (n_started n) (n_sch n) (n_runs n) (n_val n) (n_lmt n) (n_err n) (n_elmt n) t true (n_paused n).
+Definition set_paused (k : Z) (n : nst) : nst := mkN (n_started n) (n_sch n) (n_runs n) (n_val n) (n_lmt n) (n_err n) (n_elmt n) (n_link n) (n_rebound n) k.
 
 (* ---- one operation of user code ---- *)
 Definition do_op (T : tcfg) (g i : nat) (started : bool) (opi : Z) (o : op) (w : world) : world :=
@@ -370,6 +380,16 @@ Definition rearm (T : tcfg) (g i : nat) (scheduled_now : bool) (now : Z) (w : wo
     else w
   else w.
 
+(* a kind-5 node: its evaluate returns false [c_pause run] times (one line 17 each) before the run completes;
+   no validity gate, no scheduler *)
+Definition eval_pauser (T : tcfg) (beh : behaviour) (g i : nat) (w : world) : world :=
+  let n := node_at g i w in
+  if negb (n_started n) then w else
+  if n_paused n <? c_pause (ncfg_at T g i) (n_runs n) then
+    set_err PAUSED (emit [17; Z.of_nat g; Z.of_nat i; now_of g w; n_paused n]
+                         (upd_node g i (set_paused (n_paused n + 1)) w))
+  else run_user T beh g i (upd_node g i (set_paused 0) w).
+
 Definition eval_plain (T : tcfg) (beh : behaviour) (g i : nat) (w : world) : world :=
   let c := ncfg_at T g i in
   let n := node_at g i w in
@@ -385,6 +405,13 @@ Section EVAL.
   Variable T : tcfg.
   Variable beh : behaviour.
   Variable eval_child : nat -> Z -> world -> world.      (* child graph evaluate, one level down *)
+
+  (* the re-entering owner: while the child's evaluate returned false, evaluate it again (same time) *)
+  Fixpoint reenter (n : nat) (c : nat) (now : Z) (w : world) : world :=
+    match n with
+    | O => w
+    | S n' => if w_err w =? PAUSED then reenter n' c now (eval_child c now (set_err 0 w)) else w
+    end.
 
   (* bind_output, re-run each cycle: at start the link could only be pointed at the child terminal's own
      (still unbound) forwarding endpoint when that terminal is itself a nested / try_except node; the first
@@ -407,10 +434,15 @@ Section EVAL.
     if negb (n_started (node_at g i w)) then w else
     let now := now_of g w in
     let w1 := eval_child (c_child c) now (relink g i w) in
-    if c_kind c =? 1 then w1 else catch g i now w1.
+    if c_kind c =? 1 then w1
+    else if c_kind c =? 4 then reenter 64 (c_child c) now w1
+    else if w_err w1 =? PAUSED then w1                    (* try_except: a pause is not an exception *)
+    else catch g i now w1.
 
   Definition eval_node (g i : nat) (w : world) : world :=
-    if is_nested (ncfg_at T g i) then eval_nested g i w else eval_plain T beh g i w.
+    if is_nested (ncfg_at T g i) then eval_nested g i w
+    else if c_kind (ncfg_at T g i) =? 5 then eval_pauser T beh g i w
+    else eval_plain T beh g i w.
 
   (* the forward scan; the cursor sits on the node being looked at *)
   Fixpoint scan (g i : nat) (k : nat) (w : world) : world :=
@@ -447,8 +479,9 @@ Fixpoint eval_graph (f : nat) (T : tcfg) (beh : behaviour) (rr : bool) (g : nat)
       let st := Z.to_nat (g_cursor (gat g w1)) in
       let w2 := scan T beh (eval_graph f' T beh rr) g st (n - st) w1 in
       if negb (ok w2) then
-        (* the exception leaves: evaluating cleared by the scope guard, cursor stays on the failing node *)
-        upd_g g (fun s => g_set_flags (g_started s) false true s) w2
+        (* the exception leaves: evaluating cleared by the scope guard, cursor stays on the failing node
+           (a pause leaves the same way, without the failed flag) *)
+        upd_g g (fun s => g_set_flags (g_started s) false (negb (w_err w2 =? PAUSED)) s) w2
       else
         let w3 := upd_g g (g_set_cursor 0) w2 in
         let w4 := match gc_parent (gcfg_at T g) with
@@ -499,14 +532,21 @@ Definition nest_line (w : wire) (g i : Z) : option (Z * Z * list bind) :=
   | _ => None
   end.
 
+(* pause plan lines: 9 g i k cnt *)
+Definition pause_of (w : wire) (g i k : Z) : Z :=
+  match find (fun l => match l with 9 :: g' :: i' :: k' :: _ => (g' =? g) && (i' =? i) && (k' =? k) | _ => false end) w with
+  | Some (_ :: _ :: _ :: _ :: c :: _) => c
+  | _ => 0
+  end.
+
 Definition parse_node (w : wire) (g : Z) (l : line) : option ncfg :=
   match l with
   | 2 :: g' :: i :: kind :: us :: sos :: ho :: nin :: vm :: r =>
       if g' =? g then
         let ins := parse_ins (Z.to_nat nin) r in
         match nest_line w g i with
-        | Some (ch, outn, bs) => Some (mkCfg kind (z2b us) (z2b sos) (z2b ho) vm ins (Z.to_nat ch) outn bs)
-        | None => Some (mkCfg kind (z2b us) (z2b sos) (z2b ho) vm ins 0 (-1) [])
+        | Some (ch, outn, bs) => Some (mkCfg kind (z2b us) (z2b sos) (z2b ho) vm ins (Z.to_nat ch) outn bs (pause_of w g i))
+        | None => Some (mkCfg kind (z2b us) (z2b sos) (z2b ho) vm ins 0 (-1) [] (pause_of w g i))
         end
       else None
   | _ => None
@@ -576,7 +616,7 @@ Definition resolve_cfg (T : tcfg) : tcfg :=
                                          (match r with Some (e, _) => Some e | None => None end)
                                          (match r with Some (_, l) => l | None => None end))
                                  (combine (seq 0 (length (c_ins c))) (c_ins c)))
-                            (c_child c) (c_outn c) (c_binds c))
+                            (c_child c) (c_outn c) (c_binds c) (c_pause c))
                    (combine (seq 0 (length (gc_nodes gc))) (gc_nodes gc))))
       (combine (seq 0 (length T)) T).
 
